@@ -280,10 +280,14 @@ def run_unit(unit, drv, res, seed, tier):
                 for p in ('r', 'R'):
                     items.append((wrap(body, q, p), ('ok', S(body)), 'raw string literal', F3 if f3(body, q) else None))
         for q in ("'''", '"""'):
-            for body in ("a'b", 'a"b', "a\nb", "'", '"', "''", '""', "a\\'b", 'a\\"b', "\\'''"[:2] + "x"):
+            for body in ("a'b", 'a"b', "a\nb", "'", '"', "''", '""', "a\\'b", 'a\\"b', "\\'''"[:2] + "x",
+                         "'a", '"a', "''a", '""a', "'a'b", '"a"b', "' ", '" ', "'\\", "''\nz", "'\u00e9"):
                 if q in body or body.endswith(q[0]):
                     continue
                 items.append((wrap(body, q, 'r'), ('ok', S(body)), 'raw triple-quoted string literal'))
+                items.append((wrap(body, q, 'br'), ('ok', Y(body.encode('utf-8'))), 'raw triple-quoted bytes literal', F3 if f3(body, q) else None))
+                if '\\' not in body:
+                    items.append((wrap(body, q, 'b'), ('ok', Y(body.encode('utf-8'))), 'triple-quoted bytes literal with verbatim quotes'))
         res.exhaustive_done['raw-forms'] = True
     elif kind == 'bytes':
         prefixes = ['b', 'B']
